@@ -20,6 +20,8 @@ EVENTS = {
     'B1c': (['type', 'B1c', 'xc0', None, 'B1'], ['B1'], 'valid'),
     'xc1': (['unit', 'B1c', 'xc1', ['scaled', 'i:1000', 'xc0']], ['B1c'],
             'valid'),
+    '!subdef': (['unit', 'B1', 'xsub', ['scaled', 'i:3', 'xc0']], ['B1c'],
+                'invalid:definition of another type'),
     'S': (['dtype', 'S', [['B1', 2]], None, None], ['B1'], 'valid'),
     'V': (['dtype', 'V', [['B1', 1], ['B2', -1]], None, None],
           ['B1', 'B2'], 'valid'),
